@@ -161,7 +161,8 @@ def run_ledger(C, P, rule, entry_ids, label):
         # a site inside a closure of F (code moved into an iterator adaptor) is matched with the entries of F itself
         base_fn = _re2.sub(r'(::\{[^{}]*\})+$', '', fn)
         if base_fn != fn:
-            alt = [(d, e) for d, e in canon_tab.get((base_fn, kind, PN.canon_desc(desc)), []) if (base_fn, kind, d) not in groups]
+            # ... as far as these entries are not used up by the function's own sites (a site that moved into the closure frees one)
+            alt = [(d, e) for d, e in canon_tab.get((base_fn, kind, PN.canon_desc(desc)), []) if len(groups.get((base_fn, kind, d), [])) + len(groups[key]) <= e[0]]
             if len(alt) == 1:
                 tab[key] = alt[0][1]
                 continue
